@@ -9,21 +9,14 @@ from vsa.__main__ import run_check
 from vsa.rules import RULES
 
 
+from vsa.selftest import overlay_from_patch as _ofp
+
+
 def overlay_from_patch(patch, root='/repo'):
-    text = Path(patch).read_text()
-    files = sorted(set(re.findall(r'^\+\+\+ b/(\S+)', text, re.M)))
-    tmp = Path(tempfile.mkdtemp(prefix='vsa_patch_', dir='/dev/shm'))
-    try:
-        for f in files:
-            (tmp / f).parent.mkdir(parents=True, exist_ok=True)
-            shutil.copy(Path(root) / f, tmp / f)
-        r = subprocess.run(['patch', '-p1', '-s', '-i', str(Path(patch).resolve())],
-                           cwd=tmp, capture_output=True, text=True)
-        if r.returncode != 0:
-            raise SystemExit('patch failed: ' + r.stdout + r.stderr)
-        return {f: (tmp / f).read_text() for f in files}
-    finally:
-        shutil.rmtree(tmp, ignore_errors=True)
+    ov = _ofp(patch, root)
+    if ov is None:
+        raise SystemExit('patch failed to apply')
+    return ov
 
 
 def main():
